@@ -223,7 +223,7 @@ func main() {
 	}
 	// real-verifier sample
 	rng := r.Rand("real-sample")
-	nReal := r.N(600, 20000)
+	nReal := r.N(600, 200000)
 	trusted := lib.SimpleChain("c10-good", 0, "EC-256", 0)
 	untrusted := lib.SimpleChain("c10-bad", 0, "EC-256", 1)
 	goodSig := lib.MustCoreSign(lib.SignSpec{Format: lib.MediaJWS, Payload: lib.Payload(artifact), Signer: trusted})
